@@ -14,7 +14,7 @@ ulimit -n 65536 2>/dev/null || ulimit -n 16384 2>/dev/null || true
 
 # properties whose workloads are concurrent run on the race-detector build
 case "$PROP" in
-  C01|C02|C05|C06|C07|C10|C17|C18) BIN=vcheck-race; FLAGS="-race -gcflags=all=-d=checkptr=0" ;;
+  C01|C02|C05|C06|C07|C17|C18) BIN=vcheck-race; FLAGS="-race -gcflags=all=-d=checkptr=0" ;;
   *) BIN=vcheck; FLAGS="" ;;
 esac
 
